@@ -157,8 +157,12 @@ def csv_oracle(r):
         with open(os.path.join(d, 'bank.csv'), 'w') as fh:
             fh.write('Date,Description,Amount\n' + '\n'.join(','.join(x) for x in rows) + '\n')
         bad = r.sample(BAD_MATCH, 3)
+        # the WINNING rule carries values that fail (at once, or lazily when something consumes them): a tag, a let binding it does not
+        # need, one or two report fields - whoever handles them after the evaluator (normalize_merchant, the statement loop, the report)
         rules_text = '\n'.join(f'[Bad{i}]\nmatch: {b}\ncategory: X\n' for i, b in enumerate(bad)) + \
-            '\n[Uber]\nmatch: contains("UBER")\ncategory: Food\ntags: {%s}, ok\n' % r.choice(BAD_VALUE)
+            '\n[Uber]\n' + (f'let: spare = {r.choice(BAD_VALUE)}\n' if r.random() < 0.3 else '') + \
+            'match: contains("UBER")\ncategory: Food\ntags: {%s}, ok\n' % r.choice(BAD_VALUE) + \
+            ''.join(f'field: f{i} = {r.choice(BAD_VALUE)}\n' for i in range(r.choice([0, 1, 1, 2])))
         p = os.path.join(d, 'merchants.rules')
         with open(p, 'w') as fh:
             fh.write(rules_text)
@@ -179,6 +183,19 @@ def csv_oracle(r):
             fails.append({'class': 'rows-lost', 'observed': len(txns), 'required': len(rows), 'rules': rules_text})
         elif txns[0].get('category') != 'Food':
             fails.append({'class': 'failing-rule-not-inert', 'observed': txns[0].get('category'), 'required': 'Food', 'rules': rules_text})
+        else:
+            # the same line through normalize_merchant itself (explain / discover call it outside any statement loop)
+            try:
+                MU.clear_engine_cache()
+                rules = MU.get_all_rules(p)
+                got = MU.normalize_merchant('UBER EATS 123', rules, amount=15.99, data_source='Bank', data_sources=ROWS)
+                if got[1] != 'Food':
+                    fails.append({'class': 'failing-rule-not-inert', 'site': 'normalize_merchant', 'observed': got[1], 'required': 'Food', 'rules': rules_text})
+            except Exception as e:
+                fails.append({'class': 'classification-aborts', 'site': 'normalize_merchant', 'exception': type(e).__name__, 'message': str(e)[:200],
+                              'rules': rules_text})
+            finally:
+                MU.clear_engine_cache()
     finally:
         shutil.rmtree(d, ignore_errors=True)
     return fails
@@ -355,7 +372,7 @@ def run(ctx):
     ctx.obligation('correspondence:ill-typed rule files, MerchantEngine.match-vs-Engine.matchTxn', 'correspondence', not dis4,
                    cases=n4, error=json.dumps(dis4[0], default=str)[:2000] if dis4 else None)
     # (4) through parse_generic_csv and the CLI
-    ncsv = 0 if ctx.replay else (6 if ctx.quick else 60)
+    ncsv = 0 if ctx.replay else (24 if ctx.quick else 400)
     for _ in range(ncsv):
         prop_fail.extend(csv_oracle(r))
     if not ctx.replay:
